@@ -195,11 +195,15 @@ func init() {
 	}
 	Stubs[assertPkg+"Equal"] = func(ex *Exec, c *CallCtx) []*callResult {
 		a, b := c.Args[1].(IfaceV), c.Args[2].(IfaceV)
-		// ObjectsAreEqual: two []byte values are compared with bytes.Equal (nil and empty are equal)
+		// ObjectsAreEqual (testify 1.7.1): when expected is exactly []byte, actual must be []byte too, a nil slice
+		// equals only a nil slice, otherwise bytes.Equal
 		if sa, ok := a.V.(SliceV); ok && a.T != nil && b.T != nil && types.Identical(a.T, b.T) {
-			if sl, isSl := a.T.Underlying().(*types.Slice); isSl {
-				if eb, isB := sl.Elem().Underlying().(*types.Basic); isB && eb.Kind() == types.Uint8 {
+			if sl, isSl := a.T.(*types.Slice); isSl {
+				if eb, isB := sl.Elem().(*types.Basic); isB && (eb.Kind() == types.Uint8 || eb.Kind() == types.Byte) {
 					sb := b.V.(SliceV)
+					if sa.Obj == 0 || sb.Obj == 0 {
+						return ex.assertResult(c, term.Bool(sa.Obj == 0 && sb.Obj == 0), false)
+					}
 					return ex.assertResult(c, ex.eqVal(StringV{B: ex.sliceBytes(c.St, sa)}, StringV{B: ex.sliceBytes(c.St, sb)}), false)
 				}
 			}
